@@ -222,7 +222,8 @@ PROPS = {
         "for k <= 3, reduced size sets for k = 4,5 (quick) / 4,5,6 (thorough), then drop, crossed with every consumer "
         "program at call granularity -- switch after any of the k+2 producer steps then await_real_file; or no switch, "
         "len() then expect_closed_write -- with is_real_file_ready() polled at every position, x {in-memory, temp-file} "
-        "x destination {plain, BufWriter}; every shared-memory access of TempFileBuffer is exactly one public call, so "
+        "x destination {plain, BufWriter, short-writing (<= 700 bytes per call), short-writing with one EINTR after every "
+        "short write}; every shared-memory access of TempFileBuffer is exactly one public call, so "
         "orderings of calls on one thread enumerate the interleavings at that granularity. Oracle: destination bytes = "
         "concatenation of the writes (self-describing payload: missing / duplicated / reordered ranges are named), "
         "len() = bytes written, readiness true iff after drop. Leg 2: producer and consumer on real threads with "
